@@ -218,9 +218,13 @@ fn nested(kind: &str, d: usize) -> String {
 }
 
 /// constructs the parser handles in a loop: each link may nest the AST one level deeper
-const CHAINS: [&str; 34] = [
+const CHAINS: [&str; 42] = [
     "+", "-", "*", "/", "//", "%", "**", "~", "and", "or", "==", "<", "in", "is-test", "filter", "filter-args", "attr", "opt-attr", "index", "opt-index", "slice", "elif", "kwargs", "array-elems", "map-entries", "sibling-tags",
     "sibling-exprs", "text", "comments", "set-tags", "component-args", "spread", "not-in", "call-chain",
+    // chains whose operands open a nested parse of their own (brace attributes and spreads of inline component calls,
+    // parentheses, literals, calls, subscripts with expressions): whatever the nested parse does to the counters of the
+    // enclosing chain, the chain must stay bounded
+    "~component-attr", "~component-spread", "+paren", "+array", "~map", "+call", "+filter-arg", "+subscript-expr",
 ];
 
 fn chain(kind: &str, n: usize) -> String {
@@ -248,6 +252,14 @@ fn chain(kind: &str, n: usize) -> String {
         "set-tags" => rep("{% set a = 1 %}"),
         "component-args" => format!("{{% component c(...r) %}}x{{% endcomponent %}}{{{{ <c {} /> }}}}", (0..n).map(|i| format!("a{i}=\"v\"")).collect::<Vec<_>>().join(" ")),
         "spread" => format!("{{{{ [{}] }}}}", rep("...a, ")),
+        "~component-attr" => format!("{{% component c(a=1, ...r) %}}x{{% endcomponent %}}{{{{ 1{} }}}}", rep(" ~ <c a={1} />")),
+        "~component-spread" => format!("{{% component c(a=1, ...r) %}}x{{% endcomponent %}}{{{{ 1{} }}}}", rep(" ~ <c {...m} />")),
+        "+paren" => format!("{{{{ 1{} }}}}", rep(" + (1)")),
+        "+array" => format!("{{{{ 1{} }}}}", rep(" + [1][0]")),
+        "~map" => format!("{{{{ 1{} }}}}", rep(" ~ {\"k\": 1}")),
+        "+call" => format!("{{{{ 1{} }}}}", rep(" + range(end=1)")),
+        "+filter-arg" => format!("{{{{ 1{} }}}}", rep(" + 1 | default(value=1 + 1)")),
+        "+subscript-expr" => format!("{{{{ 1{} }}}}", rep(" + a[1 + 1]")),
         _ => String::new(),
     }
 }
